@@ -137,6 +137,7 @@ class C14(Check):
             from engines import combi_drivers as CD
             cfg = CD.gen_standard_cfg(r, tier)
             cfg.update(reuse_path=r.random() < 0.5, fault_weights={}, final=0, estimator="none", next_call=[r.choice([1, 2]), r.choice([2, 3, 4])])
+            cfg["std_write_fault"] = r.choice([None, None, "torn", "short", "enospc", "lost"])
             return {"config": cfg, "ops": []}
         if strategy == "cell":
             cfg = ES.gen_cell_cfg(r, tier)
@@ -245,6 +246,40 @@ class C14(Check):
             twin = answers(build())
             sc = build()
             path = "mem://checkpoint" if cfg.get("reuse_path") else "mem://c14-std"
+        fk = cfg.get("std_write_fault")
+        if fk:
+            # a save that meets a device fault first: it must fail loudly (torn / enospc) or leave nothing restorable behind
+            # (short / lost), and the live instance must be untouched - the clean save below and its answers show that
+            fpath = path + ".faulted"
+            n = int(H(rk, "cut", "std") * 3000)
+            seams.FS.plan[fpath] = (fk, n) if fk in ("torn", "short") else (fk,)
+            raised = None
+            try:
+                with seams.quiet():
+                    sc.save_to_file(fpath)
+            except OSError as e:
+                raised = type(e).__name__
+                import traceback as _tb
+                _tb.clear_frames(e.__traceback__)
+                e.__traceback__ = None
+            fired = [x for x in seams.FS.fired if x[1] == fpath]
+            if fired:
+                ctx.fault("save_" + fk)
+            fsig = dict(sig, fault="save_" + fk)
+            if fk in ("torn", "enospc") and fired and raised is None:
+                ctx.violate("failed_save_is_loud", fsig, "StandardCombi: the write failed (%s) but save_to_file returned normally" % (fired,))
+            if fired and (fk in ("lost", "torn") or fk == "short"):
+                complete = False
+                if fk == "short":
+                    with seams.quiet():
+                        sc.save_to_file(fpath + ".full")
+                    complete = len(seams.FS.files[fpath + ".full"]) <= n
+                if not complete:
+                    outcome = _restore_in_fork(fpath)
+                    if outcome == "returned_object":
+                        ctx.violate("failed_restore_is_loud", fsig, "StandardCombi: restoring an incomplete file (%s) returned an object" % (fired,))
+                    ctx.probe("incomplete_file_" + outcome)
+        with seams.quiet():
             sc.save_to_file(path)
             ctx.fault("save")
             live = answers(sc)
